@@ -68,6 +68,36 @@ def sym_matrix_eval(expr, values, dps=30):
         return [mpmath.mpf(res[i, j]) for i in range(rows) for j in range(cols)], (rows, cols)
 
 
+def warmup(defn, keys, rng):
+    """callback for build.build: evaluate (and so compile) evaluators on the partially built model, in
+    random order, the way a user inspects a model while assembling it.  What they return is not judged
+    here (the intermediate model is another state of the specification, replayed on its own); the point
+    is that the FINAL comparison then meets evaluators that were compiled before later add_* calls."""
+    sy = defn.sy
+
+    def cb(m, ne):
+        pt = gen.random_point(rng, sy)
+        names = [NUM_EVALS[k] for k in keys if k in NUM_EVALS] + ["ode"]
+        rng.shuffle(names)
+        try:
+            m.parameters = [float(v) for v in pt[sy.ns + 1:sy.ns + 1 + sy.np]]
+        except Exception:
+            return
+        for nm in names[:rng.randint(1, len(names))]:
+            if ne == 0 and nm in ("vMat", "eventRateVector", "transitionJacobian", "transitionMean", "transitionVar"):
+                continue
+            try:
+                getattr(m, nm)([float(v) for v in pt[:sy.ns]], float(pt[sy.ns]))
+            except Exception:
+                pass
+        if rng.random() < 0.5:
+            try:
+                m.get_ode_eqn()
+            except Exception:
+                pass
+    return cb
+
+
 def compare_model(defn, m, out, events, keys, rng, numeric=True, npoints=3, cython_model=None,
                   reactant=True):
     """returns list of mismatch dicts {key, kind, detail}"""
@@ -76,6 +106,8 @@ def compare_model(defn, m, out, events, keys, rng, numeric=True, npoints=3, cyth
     mism = []
     points = [gen.random_point(rng, sy) for _ in range(npoints)]
     names = sy.names()
+    keys = list(keys)
+    rng.shuffle(keys)
     for key in keys:
         if ne == 0 and key in ("V", "R", "tj", "tmean", "tvar"):
             continue
@@ -190,7 +222,8 @@ def chunk_worker(args):
             pform = rng.choice(["list", "space", "comma"])
             rec = {"id": i, "defn": defn, "build_error": None}
             try:
-                m, events, odes = build.build(defn, rng=rng, style=rng.randrange(6), sform=sform, pform=pform)
+                m, events, odes = build.build(defn, rng=rng, style=rng.randrange(6), sform=sform, pform=pform,
+                                              on_step=warmup(defn, keys, rng))
                 rec.update(m=m, events=events, odes=odes)
             except Exception as ex:
                 rec["build_error"] = "".join(traceback.format_exception_only(type(ex), ex))[:400]
@@ -275,7 +308,7 @@ def variants_worker(args):
                 r["variants"].append(desc)
                 try:
                     m, events, odes = build.build(vd, rng=rng, style=rng.randrange(6), sform=sform, pform=pform,
-                                                  routes=routes, hows=hows)
+                                                  routes=routes, hows=hows, on_step=warmup(vd, ["ode", "jac"], rng))
                 except Exception as ex:
                     r["mism"].append({"key": "build", "kind": "raised", "variant": desc,
                                       "detail": "".join(traceback.format_exception_only(type(ex), ex))[:300]})
